@@ -1036,8 +1036,8 @@ class TermCanvas(Canvas):
         .XXX
         XX..
         """
-        sx, sy = self.constrain_coords(*start)
-        ex, ey = self.constrain_coords(*end)
+        sx, sy = self.constrain_coords(start[0], start[1], ignore_scrolling=True)
+        ex, ey = self.constrain_coords(end[0], end[1], ignore_scrolling=True)
 
         # within a single row
         if sy == ey:
